@@ -14,7 +14,7 @@
       although 10% of the capacity is 1 (witness for the "lowerBound dropped"
       mutation family). *)
 From Coq Require Import List ZArith QArith Bool.
-From GZ Require Import Lib.RollingWindow C02.Model C02.Proofs.
+From GZ Require Import Lib.RollingWindow C02.Model C02.Proofs C02.ProofsHist C02.Wrap.
 Import ListNotations.
 Open Scope Z_scope.
 
@@ -54,4 +54,152 @@ Proof.
      ++ [OFail 10; OFail 11]),
     (B + 150 * ms), 1000.
   vm_compute. split; [reflexivity|]. intros H. discriminate H.
+Qed.
+
+(* ------------------------------------------------------------------ *)
+(* 3. "Resolved ONCE" is a real hypothesis.  promise.Pass / promise.Fail do not remember that
+      they ran: resolving the same promise twice decrements flying twice (the Go code does exactly
+      this; the executor replays it - feature "double_resolve").  One request, Pass then Fail:
+      flying = -1, so neither "flying = open promises" nor "flying >= 0" survives without the
+      NoDup hypothesis of Props.flying_conservation_wf.  Callers (SheddingHandler, the zRPC
+      interceptor) resolve in one deferred function, once: Props.wrapper_resolves_exactly_once. *)
+Theorem double_resolution_breaks_conservation_refuted :
+  exists c t0 ops,
+    cenabled c = true /\
+    run (init c t0) ops = [RAdmit; RDone; RDone] /\
+    resolved ops (run (init c t0) ops) = [0; 0] /\
+    granted 0 (run (init c t0) ops) = [0] /\
+    flying (final (init c t0) ops) = -1.
+Proof.
+  exists default_config, B, [OAllow B 0 0; OPass 0 (B + ms); OFail 0].
+  vm_compute. repeat split; reflexivity.
+Qed.
+
+(* ------------------------------------------------------------------ *)
+(* Pinned variants of seeded changes (each compiles and passes go-zero's own tests).           *)
+
+Fixpoint final_by (st : state -> op -> state * res) (s : state) (ops : list op) : state :=
+  match ops with [] => s | o :: ops' => final_by st (fst (st s o)) ops' end.
+Fixpoint run_by (st : state -> op -> state * res) (s : state) (ops : list op) : list res :=
+  match ops with [] => [] | o :: ops' => snd (st s o) :: run_by st (fst (st s o)) ops' end.
+
+(* 4. windowScale computed as float64(time.Second / bucketDuration) / 1000: an integer division
+      of two Durations.  Same value whenever the bucket duration divides one second; too small
+      otherwise, 0 for buckets longer than a second. *)
+Definition window_scale_trunc (c : config) : Q :=
+  (inject_Z (Z.quot nsPerSecond (bucket_duration c)) / inject_Z millisecondsPerSecond)%Q.
+
+Definition with_scale (s : state) (q : Q) : state :=
+  mkSt (senabled s) (sthreshold s) q (flying s) (avgFlying s) (overloadTime s)
+       (droppedRecently s) (passCounter s) (rtCounter s) (nextId s) (proms s).
+
+Definition init_trunc (c : config) (t0 : Z) : state := with_scale (init c t0) (window_scale_trunc c).
+
+Example trunc_same_when_dividing : Qeq (window_scale_trunc default_config) (window_scale default_config).
+Proof. vm_compute. reflexivity. Qed.
+
+(* 600 ms buckets (3 s / 5): 60 passes of 500 ms in one bucket, 4 requests in flight, CPU at 1000:
+   the capacity estimate is 60 x 500 / 600 = 50, 10% of it is 5 >= 4, yet the request is shed
+   (the truncated scale gives 60 x 500 x 1/1000 = 30, 10% = 3 < 4). *)
+Theorem truncated_window_scale_sheds_below_ten_percent_refuted :
+  exists c t0 pre now cpu1 cpu2,
+    let s := final (init_trunc c t0) pre in
+    cenabled c = true /\
+    snd (step s (OAllow now cpu1 cpu2)) = RShed /\
+    flying s = 4 /\
+    Qeq (capacity (with_scale s (window_scale c)) now) 50 /\
+    ~ (overloadFactorLowerBound * capacity (with_scale s (window_scale c)) now < inject_Z (flying s))%Q.
+Proof.
+  exists (mkCfg 3000000000 5 900 true), B,
+    (repeat (OAllow B 0 0) 70 ++ map (fun i => OPass (Z.of_nat i) (B + 500 * ms)) (seq 0 60)
+     ++ map (fun i => OFail (Z.of_nat i)) (seq 60 6)),
+    (B + 601 * ms), 1000, 1000.
+  vm_compute. repeat split; try reflexivity. intros H. discriminate H.
+Qed.
+
+(* 5. overloadTime written when a request is dropped instead of when the CPU is seen overloaded
+      ("markDropped"): every request shed during the cool-off re-arms it, so shedding goes on with
+      a cool CPU for as long as Allow calls keep coming less than a second apart. *)
+Definition allow_md (s : state) (now cpu1 cpu2 : Z) : state * res :=
+  let '(s1, h) := if sthreshold s <=? cpu1 then (s, true) else still_hot s now in
+  if h && high_thru s1 now cpu2
+  then (set_dropped (set_overload s1 now) true, RShed)
+  else (add_prom (set_flying s1 (flying s1 + 1) (avgFlying s1)) now, RAdmit).
+
+Definition step_md (s : state) (o : op) : state * res :=
+  let '(s', r) := match o with
+                  | OAllow now c1 c2 => allow_md s now c1 c2
+                  | OPass id now => pass s id now
+                  | OFail id => fail s id
+                  end in (bump s', r).
+
+(* no Allow of [pre] saw the CPU at or above the threshold less than coolOffDuration before [now] *)
+Definition no_recent_overload (th now : Z) (pre : list op) : bool :=
+  forallb (fun o => match o with
+                    | OAllow tj cj _ => negb (th <=? cj) || (coolOffDuration <=? now - tj)
+                    | _ => true end) pre.
+
+Theorem mark_dropped_extends_cool_off_refuted :
+  exists c t0 pre now cpu,
+    cenabled c = true /\ cpu < cthreshold c /\
+    no_recent_overload (cthreshold c) now pre = true /\
+    snd (step_md (final_by step_md (init c t0) pre) (OAllow now cpu cpu)) = RShed /\
+    (* the real Allow admits the same request after the same history *)
+    snd (step (final (init c t0) pre) (OAllow now cpu cpu)) = RAdmit.
+Proof.
+  exists default_config, B,
+    (repeat (OAllow B 0 0) 60 ++ map (fun i => OFail (Z.of_nat i)) (seq 0 25)
+     ++ [OAllow (B + 1) 1000 1000; OAllow (B + 900 * ms) 0 0]),
+    (B + 1800 * ms), 0.
+  vm_compute. repeat split; reflexivity.
+Qed.
+
+(* 6. promise.Fail that decrements flying without feeding the moving average: requests that end
+      with Fail (REST 503, gRPC DeadlineExceeded) leave avgFlying stale, and an overloaded shedder
+      whose in-flight count and true moving average both exceed the capacity does not shed. *)
+Definition step_fa (s : state) (o : op) : state * res :=
+  let '(s', r) := match o with
+                  | OAllow now c1 c2 => allow s now c1 c2
+                  | OPass id now => pass s id now
+                  | OFail id => match prom_start id (proms s) with
+                                | None => (s, RNoop)
+                                | Some _ => (set_flying s (flying s - 1) (avgFlying s), RDone)
+                                end
+                  end in (bump s', r).
+
+Theorem fail_without_average_never_sheds_refuted :
+  exists c t0 pre now cpu,
+    let s := final_by step_fa (init c t0) pre in
+    let rs := run_by step_fa (init c t0) pre in
+    cenabled c = true /\ cthreshold c <= cpu /\ cthreshold c <> cpuMax /\
+    Qeq (capacity s now) 10 /\
+    fst (ProofsHist.hist_avg 0 0%Q rs) = 30 /\ flying s = 30 /\
+    (capacity s now < snd (ProofsHist.hist_avg 0 0%Q rs))%Q /\
+    snd (step_fa s (OAllow now cpu cpu)) = RAdmit.
+Proof.
+  exists default_config, B,
+    (repeat (OAllow B 0 0) 40 ++ map (fun i => OFail (Z.of_nat i)) (seq 0 10)),
+    (B + ms), 950.
+  vm_compute. repeat split; try reflexivity; discriminate.
+Qed.
+
+(* 7. the zRPC interceptor without the deferred function (handler called, then Pass / Fail in
+      straight-line code): a panicking handler leaves its promise unresolved for ever. *)
+Definition rpc_wrap_nodefer (v : verdict) (o : rpc_outcome) : wrap_result :=
+  match v, o with
+  | VGrant, GPanic => mkWR 1 0 0 (VisRpc GPanic) true
+  | _, _ => rpc_wrap v o
+  end.
+
+Theorem no_defer_leaks_in_flight_refuted :
+  (exists o, wr_runs (rpc_wrap_nodefer VGrant o) = 1 /\
+             wr_pass (rpc_wrap_nodefer VGrant o) + wr_fail (rpc_wrap_nodefer VGrant o) = 0) /\
+  (* against the shedder: 12 such requests, then 10 requests that end normally: nothing is in flight any
+     more, yet flying = 12 and, with the CPU over the threshold, the next request is shed *)
+  (let s := serve_all (init default_config B)
+                      (repeat (mkReq B 0 0 (B + ms) ResNone) 12 ++ repeat (mkReq B 0 0 (B + ms) ResFail) 10) in
+   flying s = 12 /\ snd (step s (OAllow (B + 2 * ms) 1000 1000)) = RShed).
+Proof.
+  split; [exists GPanic; split; reflexivity|].
+  vm_compute. split; reflexivity.
 Qed.
